@@ -122,7 +122,8 @@ func VerifC18Lifecycle() {
 	clients := []*Client{NewClient(), NewClient()}
 	cats := []vCat{{}, {}}
 	names := []string{"tb1", "tb2"}
-	if nd.Choice("start", 2) == 1 {
+	narrow := nd.Param("narrow", 0) == 1 // deeper histories on one client and one table name only
+	if nd.Param("rich", 1) == 1 && nd.Choice("start", 2) == 1 {
 		// a richer reachable starting point: tb1 exists with two indexes on one attribute and holds an item
 		nd.Reach("rich-start")
 		nd.Assert(vCreate(clients[0], "tb1", false, true, 0) == nil, "C18-start-create")
@@ -133,11 +134,14 @@ func VerifC18Lifecycle() {
 	}
 	for step := 0; step < k; step++ {
 		ci := 0
-		if nd.Choice("client", 4) == 3 { // the second client acts less often: it is the bystander
+		if !narrow && nd.Choice("client", 4) == 3 { // the second client acts less often: it is the bystander
 			ci = 1
 		}
 		c, cat := clients[ci], cats[ci]
-		name := names[nd.Choice("name", 2)]
+		name := names[0]
+		if !narrow {
+			name = names[nd.Choice("name", 2)]
+		}
 		m, exists := cat[name]
 		switch nd.Choice("op", 7) {
 		case 0:
